@@ -9,7 +9,11 @@
 (*  EB           EphemeronBox table (gc.weaks): WeakGc, Ephemeron and      *)
 (*               weak-map entries; data = key/value still present;         *)
 (*               rc = handles on the box (0/1); intab = entry still in its *)
-(*               map's table; alive = box not yet freed                    *)
+(*               map's table; alive = box not yet freed; hr = the          *)
+(*               ephemeron box in whose value the (only) handle on this    *)
+(*               box lies, 0 if it is held by the mutator / a node / a map *)
+(*               (Ephemeron<K, WeakGc<T>>, Ephemeron<K, Ephemeron<..>>);   *)
+(*               v = 0: the value holds no Gc handle                       *)
 (*  MB           weak maps: the inner GcBox (rc, box), the WeakMapBox      *)
 (*               (wmb) and the WeakGc the WeakMapBox keeps on the inner    *)
 (*               box (wkrc, wkdata, wkalive)                               *)
@@ -70,7 +74,7 @@ IdleGc  == [phase |-> "idle", pass |-> 0, mk |-> NoMarks, nrcN |-> <<>>, nrcB |-
 (* Abstraction                                                              *)
 
 AbsP == [x \in DOMAIN EB |->
-           [kind |-> EB[x].kind, k |-> EB[x].k, v |-> EB[x].v, h |-> EB[x].h, ok |-> EB[x].data,
+           [kind |-> EB[x].kind, k |-> EB[x].k, v |-> EB[x].v, h |-> EB[x].h, hr |-> EB[x].hr, ok |-> EB[x].data,
             held |-> EB[x].rc = 1 /\ (EB[x].kind = "ent" => EB[x].data /\ EB[x].intab)]]
 AbsM == [m \in DOMAIN MB |-> [h |-> MB[m].h, held |-> MB[m].rc = 1]]
 AbsNow == [nalloc |-> nalloc, nodes |-> nodes, H |-> H, E |-> E, armed |-> armed, P |-> AbsP, M |-> AbsM, obs |-> obs]
@@ -133,8 +137,15 @@ Load(a, b) ==
   /\ obs' = [op |-> "load", a |-> a, b |-> b]
   /\ UNCHANGED <<nalloc, nodes, E, armed, EB, MB>> /\ Quiet
 
-Box(kind, k, v, h) == [kind |-> kind, k |-> k, v |-> v, h |-> h, data |-> TRUE, rc |-> 1,
+Box(kind, k, v, h) == [kind |-> kind, k |-> k, v |-> v, h |-> h, hr |-> 0, data |-> TRUE, rc |-> 1,
                        intab |-> kind = "ent", alive |-> TRUE]
+
+\* boxes whose handle the mutator holds itself; Acc(x): the mutator can get at the handle on box x
+MutBoxes == {x \in DOMAIN EB : EB[x].kind \in {"weak", "eph"} /\ EB[x].rc = 1 /\ EB[x].h = 0 /\ EB[x].hr = 0}
+RECURSIVE Acc(_)
+Acc(x) ==
+  /\ x \in DOMAIN EB /\ EB[x].rc = 1
+  /\ IF EB[x].hr # 0 THEN EB[EB[x].hr].data /\ Acc(EB[x].hr) ELSE HolderOK(EB[x].h)
 
 MkWeak(a) ==
   /\ Idle /\ Held(a) /\ Len(EB) < MaxP
@@ -144,7 +155,7 @@ MkWeak(a) ==
 
 \* WeakGc::upgrade = Ephemeron::key: Some(handle) iff the box still has its data
 Upgrade(x) ==
-  /\ Idle /\ x \in DOMAIN EB /\ EB[x].kind = "weak" /\ EB[x].rc = 1
+  /\ Idle /\ x \in DOMAIN EB /\ EB[x].kind = "weak" /\ Acc(x)
   /\ IF EB[x].data
        THEN /\ H[EB[x].k] < MaxH
             /\ H' = [H EXCEPT ![EB[x].k] = @ + 1] /\ rc' = [rc EXCEPT ![EB[x].k] = @ + 1]
@@ -154,24 +165,26 @@ Upgrade(x) ==
   /\ UNCHANGED <<nalloc, nodes, E, armed, EB, MB>> /\ Quiet
 
 DropWeak(x) ==
-  /\ Idle /\ x \in DOMAIN EB /\ EB[x].kind = "weak" /\ EB[x].rc = 1
+  /\ Idle /\ x \in DOMAIN EB /\ EB[x].kind = "weak" /\ EB[x].rc = 1 /\ EB[x].hr = 0
   /\ EB' = [EB EXCEPT ![x].rc = 0]
   /\ obs' = [op |-> "dropw", w |-> x]
   /\ UNCHANGED <<nalloc, nodes, H, E, armed, rc, MB>> /\ Quiet
 
-MkEph(k, v, h) ==
-  /\ Idle /\ Held(k) /\ Held(v) /\ HolderOK(h) /\ Len(EB) < MaxP
-  /\ EB' = Append(EB, Box("eph", k, v, h)) /\ rc' = [rc EXCEPT ![v] = @ + 1]
-  /\ obs' = [op |-> "eph", e |-> Len(EB) + 1, k |-> k, v |-> v, h |-> h]
+\* Ephemeron::new(&k, value): the Gc handle of the value (if any) is a clone; the weak handles ws are moved in
+MkEph(k, v, h, ws) ==
+  /\ Idle /\ Held(k) /\ (v = 0 \/ Held(v)) /\ HolderOK(h) /\ Len(EB) < MaxP /\ ws \subseteq MutBoxes
+  /\ EB' = Append([x \in DOMAIN EB |-> IF x \in ws THEN [EB[x] EXCEPT !.hr = Len(EB) + 1] ELSE EB[x]], Box("eph", k, v, h))
+  /\ rc' = IF v = 0 THEN rc ELSE [rc EXCEPT ![v] = @ + 1]
+  /\ obs' = [op |-> "eph", e |-> Len(EB) + 1, k |-> k, v |-> v, h |-> h, ws |-> ws]
   /\ UNCHANGED <<nalloc, nodes, H, E, armed, MB>> /\ Quiet
 
 EphValue(x) ==
-  /\ Idle /\ x \in DOMAIN EB /\ EB[x].kind = "eph" /\ EB[x].rc = 1 /\ HolderOK(EB[x].h)
-  /\ obs' = [op |-> "ephval", e |-> x, v |-> EB[x].v, r |-> IF EB[x].data THEN EB[x].v ELSE 0]
+  /\ Idle /\ x \in DOMAIN EB /\ EB[x].kind = "eph" /\ Acc(x)
+  /\ obs' = [op |-> "ephval", e |-> x, v |-> EB[x].v, r |-> IF EB[x].data THEN EB[x].v ELSE 0, s |-> IF EB[x].data THEN 1 ELSE 0]
   /\ UNCHANGED <<nalloc, nodes, H, E, armed, rc, EB, MB>> /\ Quiet
 
 DropEph(x) ==
-  /\ Idle /\ x \in DOMAIN EB /\ EB[x].kind = "eph" /\ EB[x].rc = 1 /\ EB[x].h = 0
+  /\ Idle /\ x \in DOMAIN EB /\ EB[x].kind = "eph" /\ EB[x].rc = 1 /\ EB[x].h = 0 /\ EB[x].hr = 0
   /\ EB' = [EB EXCEPT ![x].rc = 0]
   /\ obs' = [op |-> "drope", e |-> x]
   /\ UNCHANGED <<nalloc, nodes, H, E, armed, rc, MB>> /\ Quiet
@@ -228,7 +241,7 @@ Mutate ==
   \/ \E a \in nodes : Clone(a) \/ DropHandle(a) \/ MkWeak(a)
   \/ \E a \in nodes, b \in nodes : Link(a, b) \/ Unlink(a, b) \/ Load(a, b) \/ Arm(a, b)
   \/ \E x \in DOMAIN EB : Upgrade(x) \/ DropWeak(x) \/ EphValue(x) \/ DropEph(x)
-  \/ \E k \in nodes, v \in nodes, h \in nodes \cup {0} : MkEph(k, v, h)
+  \/ \E k \in nodes, v \in nodes \cup {0}, h \in nodes \cup {0}, ws \in SUBSET MutBoxes : MkEph(k, v, h, ws)
   \/ \E h \in nodes \cup {0} : MkWm(h)
   \/ \E m \in DOMAIN MB : DropWm(m)
   \/ \E m \in DOMAIN MB, k \in nodes : WmRemove(m, k) \/ WmGet(m, k)
@@ -251,16 +264,18 @@ HeapHandlesN(n, srcs, boxes) ==
       RECURSIVE Sum(_)      \* sum of the multiplicities E[p], p \in S
       Sum(c) == IF c > MaxE THEN 0 ELSE Cardinality({p \in S : E[p] >= c}) + Sum(c + 1)
   IN Sum(1) + Cardinality({x \in boxes : EB[x].data /\ EB[x].kind # "weak" /\ EB[x].v = n /\ EB[x].alive})
-HeapHandlesB(x, srcs, maps) ==
+\* (a handle in the value of an ephemeron box exists as long as that box has its data)
+HeapHandlesB(x, srcs, maps, boxes) ==
   IF \/ EB[x].kind = "eph" /\ EB[x].h \in srcs
-     \/ EB[x].kind = "ent" /\ EB[x].intab /\ EB[x].h \in maps THEN 1 ELSE 0
+     \/ EB[x].kind = "ent" /\ EB[x].intab /\ EB[x].h \in maps
+     \/ EB[x].hr \in boxes /\ EB[EB[x].hr].data THEN 1 ELSE 0
 HeapHandlesM(m, srcs) == IF MB[m].h \in srcs THEN 1 ELSE 0
 AliveB == {x \in DOMAIN EB : EB[x].alive}
 BoxM   == {m \in DOMAIN MB : MB[m].box}
 
 Recount ==
   [gc EXCEPT !.nrcN = [n \in nodes |-> Lesser(rc[n], HeapHandlesN(n, nodes, AliveB))],
-             !.nrcB = [x \in DOMAIN EB |-> IF EB[x].alive THEN Lesser(EB[x].rc, HeapHandlesB(x, nodes, BoxM)) ELSE 0],
+             !.nrcB = [x \in DOMAIN EB |-> IF EB[x].alive THEN Lesser(EB[x].rc, HeapHandlesB(x, nodes, BoxM, AliveB)) ELSE 0],
              !.nrcM = [m \in DOMAIN MB |-> IF MB[m].box THEN Lesser(MB[m].rc, HeapHandlesM(m, nodes)) ELSE 0]]
 
 TraceNonRoots ==
@@ -296,18 +311,31 @@ MarkStrong ==
   /\ UNCHANGED <<Heap, snap, obs, ist>>
 
 \* ErasedEphemeronBox::trace of box x under marks mk: [mk |-> marks afterwards, ok |-> "successfully traced"]
+\* Tracing the value: a Gc handle is enqueued on the tracer (q: something was enqueued, marked or not), a WeakGc /
+\* Ephemeron handle lying directly in the value marks its box at once (Ephemeron::trace) -- the box is not traced
+\* through here, it is looked at when the pass over the (pending) ephemerons reaches it.
+InValue(x) == {z \in AliveB : EB[z].hr = x}
 EphTrace(mk, x) ==
-  IF x \notin mk.b THEN [mk |-> mk, ok |-> FALSE]
-  ELSE IF ~EB[x].data THEN [mk |-> mk, ok |-> TRUE]
-  ELSE IF EB[x].k \notin mk.n THEN [mk |-> mk, ok |-> FALSE]
-  ELSE [mk |-> IF EB[x].kind = "weak" THEN mk ELSE TraceNodes(mk, {EB[x].v}), ok |-> TRUE]
+  IF x \notin mk.b THEN [mk |-> mk, ok |-> FALSE, q |-> FALSE]
+  ELSE IF ~EB[x].data THEN [mk |-> mk, ok |-> TRUE, q |-> FALSE]
+  ELSE IF EB[x].k \notin mk.n THEN [mk |-> mk, ok |-> FALSE, q |-> FALSE]
+  ELSE [mk |-> IF EB[x].kind = "weak" THEN mk
+               ELSE TraceNodes([mk EXCEPT !.b = @ \cup InValue(x)], {EB[x].v}),    \* v = 0: nothing is enqueued
+        ok |-> TRUE,
+        q  |-> EB[x].kind # "weak" /\ EB[x].v # 0]
 
 \* one pass over the boxes `ids` in allocation (= id) order: [mk |-> marks afterwards, pend |-> boxes not traced].
 \* A left fold (native in TLC), so that long box lists do not cost recursion depth.
 EphPass(ids, mk0) ==
   FoldLeft(LAMBDA acc, x : LET t == EphTrace(acc.mk, x)
-                           IN [mk |-> t.mk, pend |-> IF t.ok THEN acc.pend ELSE acc.pend \cup {x}],
-           [mk |-> mk0, pend |-> {}], Sorted(ids))
+                           IN [mk |-> t.mk, pend |-> IF t.ok THEN acc.pend ELSE acc.pend \cup {x}, q |-> acc.q \/ t.q],
+           [mk |-> mk0, pend |-> {}, q |-> FALSE], Sorted(ids))
+
+\* FALSE = the loop of step 3 as it is in the code: it ends when a pass resolved nothing.  TRUE (only through a
+\* definition override in a config, MCGcImplShapes_shortcut.cfg, expected to FAIL) = a loop that also ends when the
+\* ephemerons resolved by a pass enqueued nothing on the tracer: wrong, because a pass marks the boxes of the weak
+\* handles lying directly in the resolved values, and those boxes may precede their holder in the pending list.
+RescanShortcut == FALSE
 
 \* the WeakGc a WeakMapBox keeps on its map: rooted while the WeakMapBox exists; traced iff the map box is marked
 WkAlive == {m \in DOMAIN MB : MB[m].wkalive}
@@ -327,7 +355,8 @@ MarkEphRound ==
   /\ gc.phase = "ephloop"
   /\ LET r  == EphPass(gc.pend, gc.mk)
          pw == {m \in gc.pendW : ~WkTraced(r.mk, m)}
-         done == Cardinality(r.pend) + Cardinality(pw) = Cardinality(gc.pend) + Cardinality(gc.pendW)
+         done == \/ Cardinality(r.pend) + Cardinality(pw) = Cardinality(gc.pend) + Cardinality(gc.pendW)
+                 \/ RescanShortcut /\ ~r.q
      IN gc' = [gc EXCEPT !.mk = r.mk, !.pend = r.pend, !.pendW = pw,
                  !.phase = IF ~done THEN "ephloop" ELSE IF gc.pass = 1 THEN "unreach" ELSE "release",
                  !.deadN = IF done /\ gc.pass = 1 THEN nodes \ r.mk.n ELSE @,
@@ -371,7 +400,9 @@ FinalizeWeak ==
                 ELSE [x \in DOMAIN EB |-> IF EB[x].alive /\ EB[x].kind = "ent" /\ EB[x].intab /\ EB[x].h \in gc.deadM
                                            THEN [EB[x] EXCEPT !.rc = Monus(@, 1)] ELSE EB[x]]
          cl  == {x \in gc.pend : EB[x].data}
-     IN /\ EB' = [x \in DOMAIN EB |-> IF x \in cl THEN [EB1[x] EXCEPT !.data = FALSE] ELSE EB1[x]]
+         \* dropping the data of a box drops its value: the Gc handle (below) and the weak handles lying in it
+         EB2 == [x \in DOMAIN EB |-> IF EB1[x].hr \in cl THEN [EB1[x] EXCEPT !.rc = Monus(@, 1)] ELSE EB1[x]]
+     IN /\ EB' = [x \in DOMAIN EB |-> IF x \in cl THEN [EB2[x] EXCEPT !.data = FALSE] ELSE EB2[x]]
         /\ rc' = [n \in nodes |-> Monus(rc[n], Cardinality({x \in cl : EB[x].kind # "weak" /\ EB[x].v = n}))]
         /\ MB' = [m \in DOMAIN MB |-> IF m \in gc.pendW THEN [MB[m] EXCEPT !.wkdata = FALSE] ELSE MB[m]]
   /\ gc' = IF Patched THEN [gc EXCEPT !.phase = "tnr", !.pass = 2, !.pend = {}, !.pendW = {}]
@@ -386,7 +417,7 @@ Release ==
               db == AliveB \ gc.mk.b
               dm == BoxM \ gc.mk.m
           IN /\ rc' = [n \in nodes |-> IF n \in gc.mk.n THEN Monus(rc[n], Lesser(rc[n], HeapHandlesN(n, dn, db))) ELSE rc[n]]
-             /\ EB' = [x \in DOMAIN EB |-> IF x \in gc.mk.b THEN [EB[x] EXCEPT !.rc = Monus(@, HeapHandlesB(x, dn, dm))] ELSE EB[x]]
+             /\ EB' = [x \in DOMAIN EB |-> IF x \in gc.mk.b THEN [EB[x] EXCEPT !.rc = Monus(@, HeapHandlesB(x, dn, dm, db))] ELSE EB[x]]
              /\ MB' = [m \in DOMAIN MB |-> IF m \in gc.mk.m THEN [MB[m] EXCEPT !.rc = Monus(@, HeapHandlesM(m, dn))] ELSE MB[m]]
   /\ gc' = [gc EXCEPT !.phase = "sweep"]
   /\ UNCHANGED <<nalloc, nodes, H, E, armed, snap, obs, ist>>
@@ -434,14 +465,15 @@ Spec == Init /\ [][Next]_vars
 \* ref_count of a node = number of handles that exist on it (when no collection is running)
 RcExact ==
   Idle => /\ \A n \in nodes : rc[n] = H[n] + HeapHandlesN(n, nodes, AliveB)
-          /\ \A x \in AliveB : EB[x].rc \in {0, 1} /\ (EB[x].kind = "eph" /\ EB[x].h \in nodes => EB[x].rc = 1)
+          /\ \A x \in AliveB : /\ EB[x].rc \in {0, 1} /\ (EB[x].kind = "eph" /\ EB[x].h \in nodes => EB[x].rc = 1)
+                               /\ (EB[x].hr # 0 => EB[x].rc = (IF EB[EB[x].hr].alive /\ EB[EB[x].hr].data THEN 1 ELSE 0))
           /\ \A m \in BoxM : MB[m].rc \in {0, 1} /\ (MB[m].h \in nodes => MB[m].rc = 1)
 
 \* after trace_non_roots: a box is rooted iff a handle on it exists outside the heap
 RootedIffExternal ==
   gc.phase = "mark" /\ (gc.pass = 1 \/ Patched) =>
      /\ \A n \in nodes : (gc.nrcN[n] < rc[n]) <=> (H[n] > 0)
-     /\ \A x \in AliveB : (gc.nrcB[x] < EB[x].rc) <=> (EB[x].rc = 1 /\ EB[x].kind # "ent" /\ EB[x].h = 0)
+     /\ \A x \in AliveB : (gc.nrcB[x] < EB[x].rc) <=> (EB[x].rc = 1 /\ EB[x].kind # "ent" /\ EB[x].h = 0 /\ EB[x].hr = 0)
      /\ \A m \in BoxM : (gc.nrcM[m] < MB[m].rc) <=> (MB[m].rc = 1 /\ MB[m].h = 0)
 
 \* what the sweep is about to free, against reachability on the state as it is now
@@ -452,7 +484,7 @@ FreedExactlyUnreachable == gc.phase = "sweep" => (nodes \ gc.mk.n) = nodes \ Now
 NoDangling ==
   Idle => /\ \A p \in DOMAIN E : p[1] \in nodes /\ p[2] \in nodes
           /\ \A x \in DOMAIN EB : EB[x].alive /\ EB[x].data =>
-               EB[x].k \in nodes /\ (EB[x].kind # "weak" => EB[x].v \in nodes)
+               EB[x].k \in nodes /\ (EB[x].kind # "weak" => EB[x].v \in nodes \cup {0})
 
 NoDup(s) == \A i, j \in DOMAIN s : i # j => s[i] # s[j]
 FinalizeOncePerCollection == NoDup(gc.flog) /\ (gc.phase \in {"release", "sweep", "clearwm"} => Elems(gc.flog) = gc.deadN)
@@ -463,10 +495,16 @@ UpgradeIffLive ==
   Idle => \A x \in DOMAIN EB : EB[x].kind = "weak" /\ EB[x].rc = 1 =>
             /\ EB[x].data => EB[x].k \in nodes
             /\ ~AllowArm /\ ~EB[x].data => EB[x].k \notin nodes
+\* the same for every ephemeron the mutator can get at (also through the values of other ephemerons): it has lost
+\* its value only if its key is gone
+EphValueIffKeyLive ==
+  Idle => \A x \in DOMAIN EB : EB[x].kind = "eph" /\ Acc(x) /\ ~AllowArm /\ ~EB[x].data => EB[x].k \notin nodes
+\* nothing that the sweep keeps is left in the list of ephemerons to be cleared (the fix-point ran to its end)
+NoMarkedCleared == gc.phase \in {"unreach", "fin"} => gc.pend \cap {x \in gc.mk.b : EB[x].data /\ EB[x].k \in gc.mk.n} = {}
 \* an ephemeron has its value only while its key is live, and the value is then live too
 EphValueOnlyWhileKeyLive ==
   Idle => \A x \in DOMAIN EB : EB[x].kind # "weak" /\ EB[x].alive /\ EB[x].data =>
-            EB[x].k \in nodes /\ EB[x].v \in nodes
+            EB[x].k \in nodes /\ EB[x].v \in nodes \cup {0}
 
 TypeOK ==
   /\ nodes \subseteq 1..nalloc /\ DOMAIN H = nodes /\ DOMAIN rc = nodes /\ DOMAIN armed = nodes
